@@ -175,7 +175,11 @@ class C18World(TableWorld):
         results: Dict[str, Dict[str, Any]] = {}
         for a in acts:
             kind, val = outcome_of(a)
-            if kind == "raise":
+            if kind == "raise" and ex.jumps and val == "TimeoutError" and "acquire S3 lock" in str(a.exc):
+                # 61 s passed (pause deviation) while this caller was waiting for the metadata lock: its 30 s lock
+                # timeout is the documented answer; it made no acknowledged change
+                self.rep.add("callers_timed_out_on_the_lock_during_a_pause")
+            elif kind == "raise":
                 problems.append(f"{a.name} raised {val}: {str(a.exc)[:100]}")
             else:
                 results[a.name] = val
